@@ -25,6 +25,17 @@ static void phex(double d) {
   memcpy(&u, &d, 8);
   printf(" %016llx", (unsigned long long)u);
 }
+/* CDRIVER_STALE=1: the caller's output buffer (and, on a cold start, its state buffer) is NOT zeroed but
+ * holds stale values: a NaN payload and a large finite value, alternating (same pattern as cellrun) */
+static double stale_value(size_t off) {
+  if (off % 2 == 0) {
+    uint64_t u = 0x7ff8dead00000000ULL | (uint64_t)(off & 0xffff);
+    double d;
+    memcpy(&d, &u, 8);
+    return d;
+  }
+  return 3.25e300 + (double)(off % 1000) * 1e287;
+}
 static double *alloc(size_t n) {
   double *p = malloc((n + 2 * CAN) * sizeof(double));
   for (size_t i = 0; i < n + 2 * CAN; i++) p[i] = 77.0;
@@ -57,7 +68,10 @@ int main(int argc, char **argv) {
     for (size_t i = 0; i < ni; i++) in[CAN + i] = unhex(strtok_r(NULL, " \n", &save));
     for (size_t i = 0; i < np; i++) pa[CAN + i] = unhex(strtok_r(NULL, " \n", &save));
     for (size_t i = 0; i < ns; i++) st[CAN + i] = unhex(strtok_r(NULL, " \n", &save));
-    for (size_t i = 0; i < no; i++) ou[CAN + i] = 0.0;
+    int stale = getenv("CDRIVER_STALE") != NULL;
+    for (size_t i = 0; i < no; i++) ou[CAN + i] = stale ? stale_value(i) : 0.0;
+    if (stale && init)
+      for (size_t i = 0; i < ns; i++) st[CAN + i] = stale_value(i);
     double *in0 = malloc(ni * 8 + 8), *pa0 = malloc(np * 8 + 8);
     memcpy(in0, in + CAN, ni * 8);
     memcpy(pa0, pa + CAN, np * 8);
